@@ -19,6 +19,7 @@ import (
 	"verif/internal/fix"
 	"verif/internal/gen"
 	"verif/internal/model"
+	"verif/internal/stats"
 )
 
 // Opts selects oracles and operation classes.
@@ -41,6 +42,12 @@ type Machine struct {
 	step  int
 	sent  []sentBatch
 	used  map[string]map[int64]bool // target/identity -> timestamps used
+
+	// Abandoned: a public client helper (hard-coded 1 s request time-out) gave
+	// up on a request. The store may still carry it out later, so the model no
+	// longer knows the state: the rest of the case does nothing and the case
+	// counts as inconclusive, not as a pass or a failure.
+	Abandoned bool
 }
 
 type sentBatch struct {
@@ -645,7 +652,8 @@ func (m *Machine) Actions(check func(t *rapid.T)) map[string]func(*rapid.T) {
 			}
 			if err != nil {
 				if strings.Contains(err.Error(), "timeout") {
-					t.Skip("helper request timed out (1 s, hard-coded)")
+					m.abandon("client helper request timed out (1 s, hard-coded)")
+					return
 				}
 				t.Fatalf("client helper %s on %s>%s failed: %v\nhistory:\n%s", kind, e.Parent, e.ID, err, m.History())
 			}
@@ -663,7 +671,22 @@ func (m *Machine) Actions(check func(t *rapid.T)) map[string]func(*rapid.T) {
 		acts["refusalB"] = m.refusal
 		acts["refusalC"] = m.refusal
 	}
+	for name, f := range acts {
+		f := f
+		acts[name] = func(t *rapid.T) {
+			if m.Abandoned {
+				return
+			}
+			f(t)
+		}
+	}
 	return acts
+}
+
+func (m *Machine) abandon(why string) {
+	m.Abandoned = true
+	m.logf("ABANDONED: %s", why)
+	stats.Inconclusive(why)
 }
 
 func (m *Machine) typeOf(id string) string {
@@ -801,7 +824,8 @@ func (m *Machine) refusal(t *rapid.T) {
 			t.Fatalf("client helper placed %s below itself (under %s) without an error\nhistory:\n%s", c[0], c[2], m.History())
 		}
 		if strings.Contains(err.Error(), "timeout") {
-			t.Skip("helper request timed out (1 s, hard-coded)")
+			m.abandon("client helper request timed out (1 s, hard-coded)")
+			return
 		}
 		if msgs := m.drainUp(); len(msgs) > 0 {
 			t.Fatalf("refused helper call (%v) still caused a rebroadcast on %s\nhistory:\n%s", err, msgs[0].Subject, m.History())
